@@ -809,7 +809,8 @@ def c19_run(rng):
                     {"op": "line", "c": 40, "text": "until-closed"}]
         acts.insert(rng.randrange(len(acts) + 1), seq)
     stop_in_mix = rng.random() < (0.9 if not parked else 0.4)
-    acts.append([{"op": "stop"}] if stop_in_mix else [])
+    # (round 12: the stop may be requested twice at once, or once more later while clients keep the server waiting)
+    acts.append(([{"op": "stop", "n": rng.choice([1, 1, 1, 2])}] + ([{"op": "stop", "again": 1}] if rng.random() < 0.25 else [])) if stop_in_mix else [])
     # interleave the sequences preserving each one's order
     pend = [list(a) for a in acts if a]
     while pend:
@@ -1068,7 +1069,9 @@ def _final_c19(sim):
         sim.violate("C19", "serving_task_pending", f"serving task cancelled and every client gone, but it did not complete (server-side connections still open: {open_conns})")
         return
     if sim.serving_task.cancelled():
-        sim.stats["serving_task_cancelled"] += 1
+        # the documented way to stop (usage/example_server.py): `task.cancel()` ... `await task` - the await has to return
+        sim.violate("C19", "serving_task_cancelled", f"the serving task ended as CANCELLED after {getattr(sim, 'stop_requests', 1)} stop request(s): "
+                    "whoever awaits it to wait for the stop gets a CancelledError instead of returning")
     elif sim.serving_task.exception() is not None:
         sim.violate("C19", "serving_task_exception", f"serving task ended with {sim.serving_task.exception()!r}")
     if sim.server.is_serving():
@@ -1298,7 +1301,7 @@ def exec_unit(prop, unit, agg):
         positions = sorted(set([0, 1, 2, 3] + [rng.randrange(L + 1) for _ in range(40)])) if L > 44 else range(L + 1)
         for h in positions:
             run = copy.deepcopy(base_run)
-            run["inject"] = [{"h": h, "step": {"op": "stop"}}]
+            run["inject"] = [{"h": h, "step": {"op": "stop", "n": 2 if h % 3 == 2 else 1}}]
             sim = CtlSim(run, {prop}).execute()
             agg.stats["sweep_positions"] += 1
             _account(prop, sim, agg, order, "sweep", True, sample=False)
